@@ -297,6 +297,10 @@ def rule_x4(P, reach, tables, E1ctx=None):
             samples.append({"rule": "X4", "scc": [x for x in comp if "{closure" not in x][:4], "class": e["class"], "argument": e["reason"][:160]})
         if not ok:
             findings.append(F("X4", f"X4|guard|{k}", f"recursion {k[:160]} (class {e['class']}): its recorded guard no longer holds: {why}", P.body_file_line(comp[0])))
+        if e.get("depth_unbounded"):
+            # the recorded argument gives termination only; the stack depth follows the input (demonstrated)
+            obl.append({"rule": "X4", "inst": f"SCC {k[:100]}: recursion depth is bounded", "ok": False})
+            findings.append(F("X4", f"X4|depth|{k}", f"recursion {k[:160]} terminates (class {e['class']}) but its depth follows the input: {e['depth_unbounded']}", P.body_file_line(comp[0])))
     stale = sorted(set(table) - seen)
     return findings, obl, samples, {"recursive_sccs": len(sccs), "stale_table_entries": stale}
 
